@@ -207,7 +207,7 @@ func (t *callTracer) CaptureAspectEnter(joinpoint types.JoinPointRunType, from, 
 		From:        from,
 		Gas:         gas,
 		To:          to,
-		Input:       input,
+		Input:       common.CopyBytes(input),
 		Value:       value,
 		ExecContext: rawExecCtx,
 	}
